@@ -251,16 +251,27 @@ func crowded(rw bool, used bool, crowd int, prog [][]acq, bound, raceBound int) 
 // hold is the cross-key independence scenario: T0 holds key x until T2 is done (T1, if
 // present, waits for x); T2's acquisition of key y must neither block nor fail.
 func hold(rw bool, holdOp, waitOp, otherOp string, bound3 int) schk.Scenario {
+	return holdOn(nil, "", rw, holdOp, waitOp, otherOp, bound3)
+}
+
+// holdOn is hold over a locker made by mk (nil: one KeyedMutex/KeyedRWMutex[int]).
+func holdOn(mk func(rw bool) rwlocker, prefix string, rw bool, holdOp, waitOp, otherOp string, bound3 int) schk.Scenario {
 	bound := -1
 	if waitOp != "" {
 		bound = bound3
 	}
-	name := fmt.Sprintf("%s/hold|T0 %sx until T2 done || T1 %sx || T2 %sy", map[bool]string{false: "KeyedMutex", true: "KeyedRWMutex"}[rw], holdOp, waitOp, otherOp)
+	name := prefix + fmt.Sprintf("%s/hold|T0 %sx until T2 done || T1 %sx || T2 %sy", map[bool]string{false: "KeyedMutex", true: "KeyedRWMutex"}[rw], holdOp, waitOp, otherOp)
 	return schk.Scenario{
 		Name: name, Bound: bound, RaceBound: 1,
 		Body: func(s *vrt.Sched) any {
 			r := &rec{results: make([]string, 3)}
-			if rw {
+			if mk != nil {
+				l := mk(rw)
+				r.km = l
+				if rw {
+					r.rw = l
+				}
+			} else if rw {
 				m := new(sync2.KeyedRWMutex[int])
 				r.km, r.rw = m, m
 			} else {
@@ -349,6 +360,57 @@ func newKad[K comparable](rw bool, k0, k1 []K) rwlocker {
 	return a
 }
 
+// twoInst presents TWO keyed mutexes as one locker: logical key x is key 0 of the first instance,
+// logical key y is the SAME key 0 of the second instance. Every scenario that demands independence of
+// keys x and y then demands independence of two instances (state shared between instances - one lock
+// table for all of them - couples them).
+type twoInst struct {
+	m  [2]*sync2.KeyedMutex[int]
+	rw [2]*sync2.KeyedRWMutex[int]
+}
+
+func newTwoInst(rw bool) rwlocker {
+	t := &twoInst{}
+	for i := range t.m {
+		if rw {
+			t.rw[i] = new(sync2.KeyedRWMutex[int])
+		} else {
+			t.m[i] = new(sync2.KeyedMutex[int])
+		}
+	}
+	return t
+}
+func (t *twoInst) LockKey(k int) {
+	if t.rw[k] != nil {
+		t.rw[k].LockKey(0)
+	} else {
+		t.m[k].LockKey(0)
+	}
+}
+func (t *twoInst) TryLockKey(k int) bool {
+	if t.rw[k] != nil {
+		return t.rw[k].TryLockKey(0)
+	}
+	return t.m[k].TryLockKey(0)
+}
+func (t *twoInst) UnlockKey(k int) {
+	if t.rw[k] != nil {
+		t.rw[k].UnlockKey(0)
+	} else {
+		t.m[k].UnlockKey(0)
+	}
+}
+func (t *twoInst) ClearKey(k int) {
+	if t.rw[k] != nil {
+		t.rw[k].ClearKey(0)
+	} else {
+		t.m[k].ClearKey(0)
+	}
+}
+func (t *twoInst) RLockKey(k int)         { t.rw[k].RLockKey(0) }
+func (t *twoInst) TryRLockKey(k int) bool { return t.rw[k].TryRLockKey(0) }
+func (t *twoInst) RUnlockKey(k int)       { t.rw[k].RUnlockKey(0) }
+
 type fkey struct {
 	F float64
 	S string
@@ -380,6 +442,7 @@ var keyTypes = []struct {
 		nz := math.Copysign(0, -1)
 		return newKad(rw, []complex128{0, complex(nz, 0), complex(0, nz)}, []complex128{1i})
 	}},
+	{"two instances, the same key in each", newTwoInst},
 	{"*int", func(rw bool) rwlocker {
 		p, q := new(int), new(int)
 		return newKad(rw, []*int{p}, []*int{q}) // equal pointees, different keys
@@ -537,12 +600,14 @@ func main() {
 			for _, w := range waits {
 				for _, o := range others {
 					scs = append(scs, hold(rw, h, w, o, ev.Pick(r, 2, 4)))
+					// the same with x and y being one key in two different instances
+					scs = append(scs, holdOn(newTwoInst, "two instances/", rw, h, w, o, ev.Pick(r, 2, 4)))
 				}
 			}
 		}
 	}
 	schk.Main(r, scs, ev.Pick(r, 45*time.Second, 1200*time.Second), func(r *ev.Run) {
-		r.Set("rule", "controlled scheduler over the instrumented sync2 package (keyed mutexes on top of the concurrent map); key type int throughout, and for every pair / same-key triple of single acquisitions also float64, string, interface, struct, array, complex and pointer keys where one key has several spellings that are equal under == (+0.0/-0.0, equal strings in different memory) used in rotation: threads run programs of 1-2 acquisitions (LockKey, TryLockKey, RLockKey, TryRLockKey, each followed by a critical section with a scheduling point inside and the matching unlock) over keys {x,y}, on never-seen keys (first-use race) and on keys used before; 2 threads under ALL interleavings, 3 (and 4) threads under a bound or all; oracles: per-key occupancy (never two writers, never writer with reader), Try* never blocked in a stable state, Try* false only if another thread held/awaited/was acquiring the key during the call, a thread acquiring a key nobody else uses is never blocked in a stable state, no deadlock, keys free afterwards; dedicated cross-key scenarios (T0 holds x until T2 is done, T1 waits for x, T2 acquires y); ClearKey between uses; race detector inside every explored schedule of the race build")
+		r.Set("rule", "controlled scheduler over the instrumented sync2 package (keyed mutexes on top of the concurrent map); key type int throughout, and for every pair / same-key triple of single acquisitions also float64, string, interface, struct, array, complex and pointer keys where one key has several spellings that are equal under == (+0.0/-0.0, equal strings in different memory) used in rotation: threads run programs of 1-2 acquisitions (LockKey, TryLockKey, RLockKey, TryRLockKey, each followed by a critical section with a scheduling point inside and the matching unlock) over keys {x,y}, on never-seen keys (first-use race) and on keys used before; 2 threads under ALL interleavings, 3 (and 4) threads under a bound or all; oracles: per-key occupancy (never two writers, never writer with reader), Try* never blocked in a stable state, Try* false only if another thread held/awaited/was acquiring the key during the call, a thread acquiring a key nobody else uses is never blocked in a stable state, no deadlock, keys free afterwards; dedicated cross-key scenarios (T0 holds x until T2 is done, T1 waits for x, T2 acquires y), also with x and y being the same key of two different instances; ClearKey between uses; race detector inside every explored schedule of the race build")
 		r.Assume("ClearKey is exercised only when no goroutine holds or awaits the key, as the property states")
 	})
 }
